@@ -303,7 +303,7 @@ def head(node, n=110):
 
 def loc(func_or_unit, node):
     unit = func_or_unit.unit if isinstance(func_or_unit, Func) else func_or_unit
-    return f'{unit.relpath}:{getattr(node, "lineno", 0)}'
+    return f'{unit.relpath}:{int(round(getattr(node, "lineno", 0)))}'
 
 
 def parent_stmt(node):
